@@ -255,8 +255,8 @@ var topicPool = []string{".", "..", "a", "a.", "a.b", "a.b-c", "A", "a_b", "ab",
 	// lengths whose length byte (the first byte of the store key part) is itself a character of the name alphabet: 45 '-', 46 '.', 48-57 digits, 65-69 'A'-'E'
 	strings.Repeat("m", 45), "n" + strings.Repeat("m", 45), strings.Repeat("d", 48), strings.Repeat("d", 57), strings.Repeat("E", 65), strings.Repeat("e", 69)}
 // identifier pools: prefixes of one another, separators, case twins, white-space twins ("dn" / "dn " / " dn"), NUL, multi-byte
-var denomPool = []string{"\x00", "\x00\x00", "\x00lab", "dn", "dn1", "dn/x", "d", "dnx", "den:om", "DN", strings.Repeat("q", 90), "dn\x00x", "dn\x00", "ünï", "a b", "dn ", " dn", "dn\t", "d "}
-var tokenPool = []string{"dn", "dn1", "d", "x", "y", "x/y", "x\x00y", "1", "10", "tok", "T", strings.Repeat("k", 120), "\x00", "é", "x ", " x", "tok ", "1\n"}
+var denomPool = []string{"\x00", "\x00\x00", "\x00lab", "dn%2Fx", "d%6E", "dn", "dn1", "dn/x", "d", "dnx", "den:om", "DN", strings.Repeat("q", 90), "dn\x00x", "dn\x00", "ünï", "a b", "dn ", " dn", "dn\t", "d "}
+var tokenPool = []string{"dn", "dn1", "d", "x", "y", "x/y", "x%2Fy", "%78", "x%zz", "x\x00y", "1", "10", "tok", "T", strings.Repeat("k", 120), "\x00", "é", "x ", " x", "tok ", "1\n"}
 
 func GenerateScript(seed uint64, prop, tier string, env *Env) *Script {
 	rng := NewPRNG(seed ^ 0xA5A5_0000_0000_5A5A)
@@ -903,7 +903,7 @@ func (g *Gen) didDoc(did string, keys []int, style int) *DocSpec {
 		}
 		if r.Chance(0.06) {
 			// a fragment is any run of 1-128 non-blank characters: also the ones JSON, HTML and escape sequences give a meaning to
-			mid += []string{"\",\"" + did + "#key" + fmt.Sprint((k+1)%NumDidKeys), "\"", "\\", "\\u0041", "<&>", "\",\"", "\"}", ",", "%22", "'"}[r.Intn(10)]
+			mid += []string{"\",\"" + did + "#key" + fmt.Sprint((k+1)%NumDidKeys), "\"", "\\", "\\u0041", "<&>", "\",\"", "\"}", ",", "%22", "'", "\x1f", "\x7f", "\v", "\x01\x02", "\u2028", "\U000e0001"}[r.Intn(16)]
 		}
 		ctl := did
 		if r.Chance(0.15) {
@@ -1142,7 +1142,21 @@ func (g *Gen) famDidAdv() {
 	upd := func(p *ProofSpec, doc *DocSpec) {
 		g.tx(MsgSpec{T: "did.Update", F: map[string]string{"did": did, "from": from}, Doc: doc, Proof: p})
 	}
-	switch r.Intn(36) {
+	switch r.Intn(38) {
+	case 36, 37: // an Ed25519-typed authentication method whose key is a small-order point (the neutral element, the point of
+		// order 2, ...) and the "signature" that verifies for every message under lenient verification rules: whatever key
+		// types the registry learns to verify, such a proof binds nothing - not the content, not the sequence
+		keyBytes := [][]byte{append([]byte{1}, make([]byte, 31)...), append([]byte{0xec}, append(bytes.Repeat([]byte{0xff}, 30), 0x7f)...), make([]byte, 32)}[r.Intn(3)]
+		x := did + "#ed-small"
+		doc := g.didDoc(did, []int{k}, 0)
+		doc.VMs = append(doc.VMs, VMSpec{Id: x, Type: "Ed25519VerificationKey2018", Controller: did, Key: -1, RawKey: base58.Encode(keyBytes)})
+		doc.Auth = append(doc.Auth, RelSpec{Ref: x})
+		id := g.tx(MsgSpec{T: "did.Update", F: map[string]string{"did": did, "from": from}, Doc: doc, Proof: &ProofSpec{Key: k, MethodID: mid, Seq: "cur"}})
+		g.didTx = append(g.didTx, didRef{id, did})
+		degenerate := hex.EncodeToString(append(append([]byte{}, keyBytes...), make([]byte, 32)...))
+		id = g.tx(MsgSpec{T: "did.Update", F: map[string]string{"did": did, "from": g.addr(r.Intn(NumAccounts))}, Doc: g.didDoc(did, []int{other}, 0), Proof: &ProofSpec{Key: k, MethodID: x, RawSig: degenerate}})
+		g.emit(&TxSpec{Msgs: []MsgSpec{{T: "reuse", OfTx: id, OfMsg: 0}}, Note: "replay of accepted DID message"})
+		g.tx(MsgSpec{T: "did.Deactivate", F: map[string]string{"did": did, "from": from}, Proof: &ProofSpec{Key: k, MethodID: x, RawSig: degenerate}})
 	case 34, 35: // two secp256k1 methods under ONE id in authentication (nothing requires ids to be unique): the first one signs.
 		// Whoever tries the candidates one after the other must stop at the one that verifies - and keep what it returned.
 		x := did + "#dup"
@@ -1400,6 +1414,10 @@ func (g *Gen) famDidAdv() {
 			// ... where "this DID" is the other identifier cut short by a few characters (still a well-formed DID, and a
 			// string prefix of the document's id and of every method id in it)
 			cut := odid[:len(odid)-r.Range(1, len(odid)-len("did:panacea:")-32)]
+			if r.Chance(0.5) {
+				// ... or with its first characters taken away (a comparison that strips the method prefix by character set eats them)
+				cut = "did:panacea:" + odid[len("did:panacea:")+r.Range(1, len(odid)-len("did:panacea:")-32):]
+			}
 			g.tx(MsgSpec{T: "did.Create", F: map[string]string{"did": cut, "from": from}, Doc: doc, Proof: &ProofSpec{Key: other, MethodID: fmt.Sprintf("%s#key%d", odid, other), Seq: "0"}})
 			return
 		}
